@@ -237,12 +237,17 @@ func TestVerif_C22_Calls(t *testing.T) {
 				chosen = append(chosen, same[rnd.Intn(len(same))])
 			}
 		}
-		if kit.Thorough() && si%10 == 0 {
+		if kit.Thorough() && si%25 == 0 {
 			chosen = leaderCases
 		}
 		leaderOf := map[string]chain.Address{} // sorted unique set -> leader
 		rankOf := map[int]int{}                // number of unique operators -> rank of the leader
 		for ci, c := range chosen {
+			if ci > 0 && ci%40 == 0 {
+				// keep the call history the trace specification's pairwise invariants range over
+				// short; the hidden choices persist across Reset
+				tr.Reset(map[string]interface{}{"seedCase": si, "part": ci / 40})
+			}
 			var ops []chain.Address
 			var nums []int
 			for _, o := range c.Get("ops").Ints() {
